@@ -228,6 +228,9 @@ def gen_isa(rnd, *, want_macros=None, small=False, allow_numeric_enum=False):
         if rnd.random() < 0.5:
             zones['zone_b'] = (zs + 64, zs + 127)
         predefined['memory_zones'] = [{'name': n, 'start': s, 'end': e} for n, (s, e) in zones.items()]
+        if len(consts) % 2:
+            # the same zone name listed twice with different bounds (accepted: the later entry is the zone)
+            predefined['memory_zones'].insert(0, {'name': 'ZA', 'start': zs + 128, 'end': zs + 191})
     if rnd.random() < 0.25 and addr_bits >= 12:
         da = top - 31
         data['pdata'] = (da, 4)
